@@ -1,5 +1,6 @@
 """C08 — retry budget never grants more retries than it was funded."""
 from ..core import graph, peel, leaves, show
+from ..util import dominating_edges
 from ..atomic import atomic_fields, check_word, sites, atomic_method, word_of, loads_in, CAS
 
 EXPLANATION = (
@@ -72,24 +73,59 @@ def run(facts, tr, rep):
             continue
         rep.saw(tw)
         rep.saw(dp)
-        g = graph(tw)
         words = atomic_fields(facts, adt_def)
+        # the function that performs the withdrawal: try_withdraw itself, or a local helper whose result it returns
+        W = tw
+        if not [1 for w in words for (b, cs, m) in sites(facts, tr, w) if b is tw and (m in CAS or m in ("fetch_update", "try_update"))]:
+            hcalls = []
+            for c in graph(tw).calls():
+                for d in c.targets_def():
+                    hb = facts.bodies.get(d)
+                    if hb is not None and hb.kind == "fn" and hb.local_ty(0)["s"] == "bool" and hb.crate is tw.crate:
+                        if [1 for w in words for (b2, cs2, m2) in sites(facts, tr, w) if b2 is hb and m2 in CAS]:
+                            W = hb
+                            hcalls.append(c)
+            if W is not tw:
+                rep.saw(W)
+                rep.note("%s::try_withdraw delegates to %s" % (adt_def.split("::")[-1], W.def_))
+                gt = graph(tw)
+                # everything try_withdraw returns is the helper's verdict, `true` on its true edge, or a refusal
+                okd = True
+                for (i_, j_, node) in _ret_nodes(tr, tw):
+                    for lf in leaves(node):
+                        lf = peel(lf)
+                        if lf[0] == "const" and lf[1] == "false":
+                            continue
+                        if tr.local_sync_callee(lf) is W:
+                            continue
+                        if lf[0] == "const" and lf[1] == "true":
+                            dom = False
+                            for e in dominating_edges(tr, tw, i_):
+                                if e["kind"] == "bool" and e["label"] == "true" and tr.local_sync_callee(e["node"]) is W:
+                                    dom = True
+                            if dom:
+                                continue
+                        okd = False
+                rep.ob("C08.GRANT", "%s|%s|delegates" % (tw.crate.name, tw.def_), okd, "%s:%d" % (tw.span["file"], tw.span["line"]),
+                       "try_withdraw grants exactly when %s does" % W.def_.split("::")[-1] if okd else
+                       "try_withdraw can grant without its withdrawal helper having granted")
+        g = graph(W)
         cas_sites = [(b, cs, m) for w in words for (b, cs, m) in sites(facts, tr, w)
-                     if b is tw and (m in CAS or m in ("fetch_update", "try_update"))]
+                     if b is W and (m in CAS or m in ("fetch_update", "try_update"))]
         # success edges: is_ok(&cas_result) true edge, or Ok variant of the CAS result
         succ_edges = set()
         for (_b, cs, m) in cas_sites:
-            V = ("call", tw.crate.name, tw.def_, cs.bb)
+            V = ("call", W.crate.name, W.def_, cs.bb)
             for bb in range(g.n):
                 sw = g.switch(bb)
                 if sw is None:
                     continue
                 if sw.kind == "enum" and "Ok" in sw.variants:
-                    node = peel(tr.place(tw, sw.place, sw.defloc))
+                    node = peel(tr.place(W, sw.place, sw.defloc))
                     if node == V:
                         succ_edges.add((bb, sw.variants["Ok"]))
                 elif sw.kind == "bool":
-                    cond = peel(tr.operand(tw, sw.cond, (bb, len(g.stmts(bb)))))
+                    cond = peel(tr.operand(W, sw.cond, (bb, len(g.stmts(bb)))))
                     if cond[0] == "call":
                         cc = tr.call_of(cond)
                         if cc.name == "is_ok" and peel(tr.operand(cc.g.b, cc.args[0], cc.loc)) == V:
@@ -97,14 +133,14 @@ def run(facts, tr, rep):
                         if cc.name == "is_err" and peel(tr.operand(cc.g.b, cc.args[0], cc.loc)) == V:
                             succ_edges.add((bb, sw.variants["false"]))
         n_true = 0
-        for i, blk in enumerate(tw.blocks):
+        for i, blk in enumerate(W.blocks):
             for j, s in enumerate(blk["stmts"]):
                 if s["k"] == "assign" and s["lhs"]["l"] == 0 and not s["lhs"]["p"]:
-                    node = peel(tr.operand(tw, s["rv"]["op"], (i, j))) if s["rv"]["k"] == "use" else ("rv",)
+                    node = peel(tr.operand(W, s["rv"]["op"], (i, j))) if s["rv"]["k"] == "use" else ("rv",)
                     if node[0] == "const" and node[1] == "true":
                         n_true += 1
                         ok = bool(succ_edges) and g.edges_dominate(succ_edges, i)
-                        rep.ob("C08.GRANT", "%s|%s|true#%d" % (tw.crate.name, tw.def_, n_true - 1), ok, g.where(i, j),
+                        rep.ob("C08.GRANT", "%s|%s|true#%d" % (W.crate.name, W.def_, n_true - 1), ok, g.where(i, j),
                                "`true` (retry granted) is returned only on the success edge of the subtracting compare-exchange" if ok else
                                "`true` (retry granted) is reachable without a successful compare-exchange on the balance")
                     elif node[0] not in ("const",):
@@ -112,14 +148,14 @@ def run(facts, tr, rep):
                         ok = any(x[0] == "call" and tr.call_of(x).bb in [cs.bb for (_b, cs, _m) in cas_sites]
                                  for x in tr.walk(node))
                         n_true += 1
-                        rep.ob("C08.GRANT", "%s|%s|ret#%d" % (tw.crate.name, tw.def_, n_true - 1), ok, g.where(i, j),
+                        rep.ob("C08.GRANT", "%s|%s|ret#%d" % (W.crate.name, W.def_, n_true - 1), ok, g.where(i, j),
                                "returned grant derives from the compare-exchange result" if ok else "returned grant does not derive from a compare-exchange result")
         rep.floor("C08.grant-sites:" + adt_def.split("::")[-1], n_true, 1)
         # guard: CAS new = current - amount and CAS block dominated by !(current < amount)
         for (_b, cs, m) in cas_sites:
             if m not in CAS:
                 continue
-            new = peel(tr.operand(tw, cs.args[2], cs.loc))
+            new = peel(tr.operand(W, cs.args[2], cs.loc))
             ok = False
             detail = "new balance is not `observed - amount`"
             # idiom: match observed.checked_sub(amount) { Some(new) => CAS(observed, new), None => refuse }
@@ -130,8 +166,8 @@ def run(facts, tr, rep):
                 nn = peel(nn[1])
             if nn[0] == "call" and tr.call_of(nn).name == "checked_sub":
                 cc = tr.call_of(nn)
-                obs = peel(tr.operand(tw, cc.args[0], cc.loc))
-                exp = peel(tr.operand(tw, cs.args[1], cs.loc))
+                obs = peel(tr.operand(W, cc.args[0], cc.loc))
+                exp = peel(tr.operand(W, cs.args[1], cs.loc))
                 if obs == exp:
                     ok = True
                     detail = "subtracting CAS uses observed.checked_sub(amount): it exists only when observed >= amount (%s)" % cc.where()
@@ -143,13 +179,13 @@ def run(facts, tr, rep):
                     sw = g.switch(bb)
                     if sw is None or sw.kind != "bool":
                         continue
-                    cond = peel(tr.operand(tw, sw.cond, (bb, len(g.stmts(bb)))))
+                    cond = peel(tr.operand(W, sw.cond, (bb, len(g.stmts(bb)))))
                     if cond[0] == "binop" and cond[1] in ("Lt", "Ge") and peel(cond[2]) == peel(cur) and _same_amount(cond[3], amt):
                         edge = (bb, sw.variants["false"]) if cond[1] == "Lt" else (bb, sw.variants["true"])
                         if g.edge_dominates(edge, cs.bb):
                             ok = True
                             detail = "subtracting CAS is dominated by the guard observed >= amount (%s)" % g.where(bb)
-            rep.ob("C08.GUARD", "%s|%s|cas" % (tw.crate.name, tw.def_), ok, cs.where(), detail)
+            rep.ob("C08.GUARD", "%s|%s|cas" % (W.crate.name, W.def_), ok, cs.where(), detail)
         # deposit: written value is min(_, cap)
         gd = graph(dp)
         nd = 0
@@ -177,6 +213,11 @@ def run(facts, tr, rep):
                 rep.ob("C08.CAP", "%s|%s|%s" % (dp.crate.name, dp.def_, m), ok, cs.where(),
                        "deposited balance is min(_, maximum)" if ok else "deposited balance is not capped by min(_, maximum)")
         rep.floor("C08.deposit-writes:" + adt_def.split("::")[-1], nd, 1)
+
+
+def _ret_nodes(tr, body):
+    from ..util import ret_assigns
+    return ret_assigns(tr, body)
 
 
 def _same_amount(a, b):
